@@ -49,7 +49,7 @@ def specs_for(pid=None):
 def make_scratch():
     d = tempfile.mkdtemp(prefix="s3sv-mut-", dir="/tmp")
     for name in ("crates", "codegen", "data"):
-        shutil.copytree(os.path.join(extract.REPO, name), os.path.join(d, name), ignore=shutil.ignore_patterns("target", ".git"))
+        shutil.copytree(os.path.join(extract.REPO, name), os.path.join(d, name), ignore=shutil.ignore_patterns("target", ".git"), symlinks=True)
     for f in ("Cargo.toml", "Cargo.lock", "rustfmt.toml"):
         shutil.copy(os.path.join(extract.REPO, f), d)
     return d
@@ -77,14 +77,19 @@ def worker_main(spec_json, slot):
     out = {}
     factdir = None
     try:
-        db = facts.load_db(list(extract.QUICK_CRATES))
+        tier = m.get("tier", "quick")
+        crates = list(extract.QUICK_CRATES)
+        if tier == "thorough":
+            for pid in m["pids"]:
+                crates += [c for c in importlib.import_module("s3sv.rules." + pid.lower()).META.get("thorough_crates", []) if c not in crates]
+        db = facts.load_db(crates)
         factdir = db.dir
         known = {k["key"] for k in report.load_known() if k.get("status") == "open"}
         for pid in m["pids"]:
             mod = importlib.import_module("s3sv.rules." + pid.lower())
-            chk = report.Check(pid, "quick", mod.META["level"], "", (), ())
+            chk = report.Check(pid, tier, mod.META["level"], "", (), ())
             try:
-                mod.run(chk, db, "quick")
+                mod.run(chk, db, tier)
             except report.AnchorMissing as e:
                 chk.anchor_missing("R0", str(e))
             out[pid] = sorted({i["key"] for i in chk.inst if not i["ok"] and i["key"] not in known})
@@ -103,7 +108,7 @@ def run_variant(m, pids, slot=0):
         if not apply_variant(scratch, m):
             return None
         env = dict(os.environ, S3SV_REPO=scratch, S3SV_TARGET=os.path.join(extract.CACHE, "target-w%d" % slot), S3SV_NO_EVIDENCE="1")
-        r = subprocess.run([sys.executable, "-m", "s3sv.selftest", "--worker", json.dumps({"pids": pids}), str(slot)], cwd=VERIF, env=env,
+        r = subprocess.run([sys.executable, "-m", "s3sv.selftest", "--worker", json.dumps({"pids": pids, "tier": m.get("tier", "quick")}), str(slot)], cwd=VERIF, env=env,
                            stdout=subprocess.PIPE, stderr=subprocess.PIPE, text=True)
         for line in r.stdout.splitlines():
             if line.startswith("S3SV-SELFTEST-RESULT "):
